@@ -39,6 +39,8 @@ def pkey(p):
     if isinstance(p, tuple):
         if p and p[0] == "lang":
             return ("lang", tuple((a, b) for a, b in p[1]))
+        if p and p[0] == "pos":
+            return ("pos", p[1], 2 if p[2] in (2, 4) else p[2], 2 if p[3] in (2, 4) else p[3], p[4], p[5])
         return p
     n = type(p).__name__
     if n == "SsbOpParamFixedPoint":
@@ -50,7 +52,9 @@ def pkey(p):
     if n == "SsbOpParamLanguageString":
         return ("lang", tuple(p.strings.items()))
     if n == "SsbOpParamPositionMarker":
-        return ("pos", p.name, p.x_offset, p.y_offset, p.x_relative, p.y_relative)
+        # offsets 2 and 4 both denote the half-tile offset (docs/source_maps.rst "2 or 4 when +0.5 should be added")
+        return ("pos", p.name, 2 if p.x_offset in (2, 4) else p.x_offset, 2 if p.y_offset in (2, 4) else p.y_offset,
+                p.x_relative, p.y_relative)
     raise TypeError(f"unknown parameter {p!r} ({n})")
 
 
